@@ -28,7 +28,7 @@ git -C /repo apply $out/patch.diff
 : > $out/checks.txt
 for p in $props; do
   echo "== check $p on seeded tree"
-  ./tools/check.py $p --tier quick > $out/check_$p.txt 2>&1; rc=$?
+  VERIF_NO_EVIDENCE=1 ./tools/check.py $p --tier quick > $out/check_$p.txt 2>&1; rc=$?
   echo "$p exit=$rc $(grep -c '^VIOLATION' $out/check_$p.txt) violations" | tee -a $out/checks.txt
   grep -E "^VIOLATION|^TOOL-ERROR" $out/check_$p.txt | head -3 | cut -c1-220
 done
